@@ -47,6 +47,17 @@ def cse(expressions, cse_concat=True, cse_in_brackets=False, verbose=False):
         if len(used_axis_ids) == 0:
             continue
 
+        # Skip subexpressions that constrain their own axes (partially known sizes, or the same axis used more than once),
+        # since replacing them with a single new axis would drop that constraint
+        constrains_own_axes = False
+        for exprlist in str_to_common_expr[str_expr]:
+            axes = [v for expr in exprlist for v in expr.nodes() if isinstance(v, Axis)]
+            has_value = [v.value is not None for v in axes]
+            if (any(has_value) and not all(has_value)) or len({v.name for v in axes}) != len(axes):
+                constrains_own_axes = True
+        if constrains_own_axes:
+            continue
+
         axes_used_only_in_this_subexpression = True
         for root in expressions:
             if root is not None:
